@@ -536,12 +536,49 @@ SCALE_FAMILIES = {
     'many-parameters': lambda n: 'Y = ' + ' + '.join('{p%d}' % i for i in range(n)),
     'long-number': lambda n: 'Y = ' + '1' * n,
     'spaces-before-eq': lambda n: 'Y' + ' ' * n + '= X',
+    'open-index': lambda n: 'Y = ' + 'X[ ' * n,
+    'open-index-sum': lambda n: 'Y = ' + '+'.join(['X[1'] * n),
+    'keyword-open-index': lambda n: 'Y = ' + 'if[ ' * n,
 }
 SCALE_SIZES = {'bracketed-lines': (25, 50), 'long-identifier': (3000, 6000), 'dotted-name': (1500, 3000), 'many-statements': (300, 600),
                'long-sum': (1500, 3000), 'long-bracket-statement': (400, 800), 'long-fence': (1000, 2000), 'many-blank-lines': (20000, 40000),
-               'long-comment': (50000, 100000), 'many-parameters': (800, 1600), 'long-number': (5000, 10000), 'spaces-before-eq': (3000, 6000)}
-SCALE_MIN_T = 0.1       # seconds of CPU below which a growth exponent is noise
-SCALE_MAX_EXP = 1.6     # linear is 1, quadratic 2
+               'long-comment': (50000, 100000), 'many-parameters': (800, 1600), 'long-number': (5000, 10000), 'spaces-before-eq': (3000, 6000),
+               'open-index': (1000, 2000), 'open-index-sum': (1400, 2800), 'keyword-open-index': (2500, 5000)}
+SCALE_MIN_T = 0.1       # first look: seconds of CPU below which a growth exponent is noise
+SCALE_MAX_EXP = 1.6     # first look: linear is 1, quadratic 2 — only SUSPECTS a family, never flags it
+# confirmation of a suspected family: three FRESH processes, sizes n, 2n, 4n; flagged only if EVERY process measures an exponent
+# (n -> 4n) of at least SCALE_CONFIRM_EXP with t(4n) >= SCALE_CONFIRM_T.  On a machine too fast to reach the floor nothing is flagged.
+SCALE_CONFIRM_EXP = 1.85
+SCALE_CONFIRM_T = 0.5
+SCALE_CONFIRM_BASE = {'bracketed-lines': 15, 'dotted-name': 2000, 'open-index': 1000, 'open-index-sum': 1200, 'keyword-open-index': 2500}
+
+_SCALE_SCRIPT = r"""
+import json, math, sys, time, warnings
+warnings.simplefilter('ignore')
+import fsic
+sys.path.insert(0, sys.argv[3]); sys.path.insert(0, sys.argv[4])
+import C13
+f = C13.SCALE_FAMILIES[sys.argv[1]]
+n = int(sys.argv[2])
+try:
+    fsic.parse_model('Y = (X[1] +\n f(Z.a) + if[0])', check_syntax=False)      # warm-up: imports, regex caches
+except BaseException:
+    pass
+out = []
+for m in (1, 2, 4):
+    s = f(n * m)
+    best = None
+    for _ in range(2):
+        t0 = time.process_time()
+        try:
+            fsic.parse_model(s, check_syntax=False)
+        except BaseException:
+            pass
+        dt = time.process_time() - t0
+        best = dt if best is None else min(best, dt)
+    out.append((len(s), best))
+print(json.dumps(out))
+"""
 
 
 def _cpu(s):
@@ -559,14 +596,44 @@ def _cpu(s):
     return best
 
 
+def _confirm_scale(family, base):
+    """three fresh processes; returns the list of (exponent n->4n, t(4n)) or None when a process failed"""
+    import math
+    import subprocess
+    import fsic
+    repo = os.path.dirname(os.path.dirname(os.path.abspath(fsic.__file__)))
+    here = os.path.dirname(os.path.abspath(__file__))
+    res = []
+    for _ in range(3):
+        try:
+            p = subprocess.run([sys.executable, '-c', _SCALE_SCRIPT, family, str(base), here, os.path.dirname(here)], capture_output=True, text=True,
+                               timeout=240, env=dict(os.environ, PYTHONPATH=repo + os.pathsep + os.path.dirname(here)))
+            pts = json.loads(p.stdout.strip().splitlines()[-1])
+        except Exception:       # noqa: BLE001
+            return None
+        (l1, t1), _mid, (l4, t4) = pts
+        res.append((math.log(max(t4, 1e-6) / max(t1, 1e-6)) / math.log(l4 / l1), t4))
+    return res
+
+
 def impl_scale(case):
     import math
     f = SCALE_FAMILIES[case['family']]
     s1, s2 = f(case['n1']), f(case['n2'])
     t1, t2 = _cpu(s1), _cpu(s2)
     exp_ = math.log(max(t2, 1e-6) / max(t1, 1e-6)) / math.log(len(s2) / len(s1))
-    return {'len1': len(s1), 'len2': len(s2), 't2_ms': int(t2 * 1000), 'superlinear': bool(t2 >= SCALE_MIN_T and exp_ > SCALE_MAX_EXP),
-            'exponent_x10': int(round(exp_ * 10)) if t2 >= SCALE_MIN_T else None}
+    suspected = bool(t2 >= SCALE_MIN_T and exp_ > SCALE_MAX_EXP)
+    o = {'len1': len(s1), 'len2': len(s2), 't2_ms': int(t2 * 1000), 'suspected': suspected, 'superlinear': False,
+         'exponent_x10': int(round(exp_ * 10)) if t2 >= SCALE_MIN_T else None}
+    if suspected:
+        conf = _confirm_scale(case['family'], SCALE_CONFIRM_BASE.get(case['family'], case['n1']))
+        if conf is not None:
+            o['confirm'] = [[int(round(e * 100)), int(t * 1000)] for e, t in conf]
+            o['superlinear'] = all(e >= SCALE_CONFIRM_EXP and t >= SCALE_CONFIRM_T for e, t in conf)
+            if o['superlinear']:
+                o['exponent_x10'] = int(round(min(e for e, _ in conf) * 10))
+                o['t2_ms'] = int(min(t for _, t in conf) * 1000)
+    return o
 
 
 def _enum_strings(case):
@@ -704,7 +771,7 @@ def line_mutate(rng, s):
 def gen(rng, tier):
     cases = [{'k': 's', 's': s} for s in CORPUS]
     for fam, (n1, n2) in SCALE_SIZES.items():
-        m = 2 if (tier != 'quick' and fam not in ('bracketed-lines', 'dotted-name')) else 1      # thorough: twice the size, except on the two super-linear families (minutes of CPU)
+        m = 2 if (tier != 'quick' and fam not in SCALE_CONFIRM_BASE) else 1      # thorough: twice the size, except on the two super-linear families (minutes of CPU)
         cases.append({'k': 'scale', 'family': fam, 'n1': n1 * m, 'n2': n2 * m})
     # exhaustive part
     cases += [{'k': 'enum', 'len': L, 'prefix': ''} for L in (0, 1, 2)]
@@ -892,8 +959,8 @@ def oracle(case, obs):
     if case['k'] == 'scale':
         if obs.get('superlinear'):
             return [{'sig': 'C13|scaling|' + case['family'],
-                     'what': 'parse_model terminates, but its CPU time grows like size^%.1f on the family %r (%d characters: %d ms; sizes %d -> %d)'
-                             % ((obs.get('exponent_x10') or 0) / 10.0, case['family'], obs['len2'], obs['t2_ms'], obs['len1'], obs['len2'])}]
+                     'what': 'parse_model terminates, but its CPU time grows at least like size^%.1f on the family %r (confirmed by three fresh processes at sizes n, 2n, 4n: [exponent x100, ms at 4n] = %s)'
+                             % ((obs.get('exponent_x10') or 0) / 10.0, case['family'], obs.get('confirm'))}]
         return []
     items = [(case['s'], obs)] if case['k'] == 's' else [(s, o) for s, o in obs.get('anomalies', [])]
     seen = set()
